@@ -41,9 +41,15 @@ Probe ==
        /\ ctr' = IF th[T].pc = "user" THEN p.ctr ELSE ctr
        /\ hist' = Append(hist, [act |-> "Probe", out |-> p.out, live |-> LiveCount, held |-> lock # Free])
   /\ needProbe' = FALSE
-  /\ UNCHANGED <<lock, poisoned, th, inj, cur, dropst, code, orig, tramp, rw, dirty, aborted, fault>>
+  /\ UNCHANGED <<lock, poisoned, th, inj, cur, dropst, code, orig, tramp, rw, dirty, aborted, fault, inflight>>
 
 Quiet(A) == A /\ UNCHANGED <<hist, needProbe>>
+
+\* installations attempted in the current lifetime (successful, refused or abandoned)
+LastNew == IF \E i \in 1..Len(hist) : hist[i].act = "New"
+           THEN CHOOSE i \in 1..Len(hist) : hist[i].act = "New" /\ \A j \in (i + 1)..Len(hist) : hist[j].act # "New"
+           ELSE 0
+Attempts == Cardinality({i \in (LastNew + 1)..Len(hist) : hist[i].act = "Install"})
 
 OutName(o) == IF o.res.kind \in {"panic-args", "panic-over"} THEN o.res.kind ELSE Name(o.res)
 
@@ -63,11 +69,11 @@ NextApi0 ==
                       /\ hist' = Append(hist, [act |-> "CallUnwind", f |-> f, match |-> m, out |-> OutName(CallOutcome(f, m))])
            \/ \E f \in Funcs, kind \in InstallKinds, fk \in Fakes \cup BoolSet, st \in Sites \cup {NoSite},
                  n \in NVals, g \in Gates :
-                 /\ Len(Guards(T)) < MaxInstalls
+                 /\ Len(Guards(T)) < MaxInstalls /\ Attempts < MaxInstalls
                  /\ (kind = "bool") = (fk \in BoolSet)
                  /\ (st = NoSite) = (n = -1)
                  /\ (kind = "bool" => n = -1)
-                 /\ (g = "bool" => n = -1) /\ (g = "null" => n = -1)
+                 /\ (g = "bool" => n = -1) /\ (g = "null" => n = -1) /\ (g = "abandon" => n = -1)
                  /\ (st # NoSite => st = Len(Verifiers(T)) + 1)      \* sites are used in order, each once
                  /\ (fk = "k2" => \E h \in 1..Len(hist) : hist[h].act = "Install" /\ hist[h].fake = "k1")
                  /\ InstallBegin(T, f, kind, fk, st, n, g)
@@ -87,6 +93,7 @@ NextApi0 ==
               /\ UNCHANGED needProbe
            \/ Quiet(WriteEntry(T)) \/ Quiet(FlushEntryStep(T)) \/ Quiet(PushGuard(T))
            \/ InstallEnd(T) /\ needProbe' = TRUE /\ hist' = Append(hist, [act |-> "InstallOk"])
+           \/ Abandon(T) /\ needProbe' = TRUE /\ hist' = Append(hist, [act |-> "InstallAbandoned"])
            \/ /\ DropBegin(T) /\ hist' = Append(hist, [act |-> "Drop"]) /\ UNCHANGED needProbe
            \/ Quiet(\E i \in 1..MaxTramps : Restore(T, i) \/ FlushRestore(T, i) \/ Unmap(T, i))
            \/ Quiet(GuardsDone(T))
